@@ -415,6 +415,24 @@ func (n *Node) CreateInvoice(amount uint64) (res lightning.Invoice, err error) {
 	return
 }
 
+// CreateInvoiceMsat creates an invoice for an exact msat amount (the CLN REST node is asked in msat).
+func (n *Node) CreateInvoiceMsat(msat uint64) (res lightning.Invoice, err error) {
+	err = n.H.Do("ln", "CreateInvoice", fmt.Sprint(msat/1000), true, func() error {
+		if n.FailCreateInvoice {
+			return errors.New("lnmodel: cannot create invoice")
+		}
+		n.W.mu.Lock()
+		defer n.W.mu.Unlock()
+		i, e := n.W.newInvoiceLocked(msat, n.Name, "mint")
+		if e != nil {
+			return e
+		}
+		res = lightning.Invoice{PaymentRequest: i.Bolt11, PaymentHash: i.Hash, Amount: msat / 1000, Expiry: 3600}
+		return nil
+	})
+	return
+}
+
 func (n *Node) InvoiceStatus(hash string) (res lightning.Invoice, err error) {
 	err = n.H.Do("ln", "InvoiceStatus", s8(hash), false, func() error {
 		if n.FailInvoiceStatus {
